@@ -1441,4 +1441,118 @@ example : (copyToUcol (0 : Int) exUcolArgs #[0, 0, 1, 1, 2, 77] #[9, 9, 50, 51, 
       = [0, 0, 0, 0, 15, 16] ∧
     (copyToUcol (0 : Int) exUcolArgs #[0, 0, 1, 1, 2, 77] #[9, 9, 50, 51, 52, 53, 54] #[7, 7, 60, 61, 62, 63, 64] #[11, 12, 13, 14, 15, 16]).2.toList
       = [0, 0, 1, 1, 2, 6] := by decide
+
+/-- **dsnode_dfs.c, supernode bookkeeping**: `supno[jcol..kcol+1]` all receive the new supernode number
+`nsuper = supno[jcol] + 1`, `xsup[nsuper+1] = kcol+1`, nothing else in `supno`/`xsup` changes. -/
+theorem snodeDfs_supno (jcol kcol : Nat) (asub xaB xaE xprune : Array Nat) (marker : Array Int)
+    (xsup : Array Nat) (supno : Array Int) (lsub xlsub : Array Nat) (hle : jcol ≤ kcol) :
+    let o := snodeDfs jcol kcol asub xaB xaE xprune marker xsup supno lsub xlsub
+    let nsuper : Int := supno.getD jcol 0 + 1
+    (∀ i, jcol ≤ i → i ≤ kcol + 1 → i < supno.size → o.supno.getD i 0 = nsuper) ∧
+    (∀ i, i < jcol ∨ kcol + 1 < i → o.supno.getD i 0 = supno.getD i 0) ∧
+    ((nsuper + 1).toNat < xsup.size → o.xsup.getD (nsuper + 1).toNat 0 = kcol + 1) ∧
+    (∀ s, s ≠ (nsuper + 1).toNat → o.xsup.getD s 0 = xsup.getD s 0) := by
+  intro o nsuper
+  obtain ⟨_, _, _, _, e5, e6⟩ := snodeDfs_unfold jcol kcol asub xaB xaE xprune marker xsup supno lsub xlsub
+  have hs : (snodeLoop jcol kcol asub xaB xaE marker supno lsub xlsub).supno =
+      (List.range' jcol (kcol + 1 - jcol)).foldl (fun s i => s.setIfInBounds i nsuper) (supno.setIfInBounds jcol nsuper) :=
+    snodeCols_fold_supno kcol nsuper asub xaB xaE _ _
+  have e5' : o.supno = _ := e5
+  have e6' : o.xsup = _ := e6
+  refine ⟨?_, ?_, ?_, ?_⟩
+  · intro i h1 h2 h3
+    rw [e5', getD_setIfInBounds]
+    by_cases hk : i = kcol + 1
+    · subst hk; rw [if_pos ⟨rfl, by rw [hs, foldl_setRange_size]; simpa using h3⟩]
+    · rw [if_neg (fun hh => hk hh.1.symm), hs, foldl_setRange_getD, if_pos ⟨h1, by omega, by simpa using h3⟩]
+  · intro i hi
+    rw [e5', getD_setIfInBounds, if_neg (by omega), hs, foldl_setRange_getD, if_neg (by omega), getD_setIfInBounds, if_neg (by omega)]
+  · intro hb; rw [e6', getD_setIfInBounds, if_pos ⟨rfl, hb⟩]
+  · intro s hs'; rw [e6', getD_setIfInBounds, if_neg (fun hh => hs' hh.1.symm)]
+
+/-- the list of column `c` is cut at `xprune[c]`: pivoted rows before, unpivoted rows from there on -/
+def CutAt {K : Type} (a : PruneArgs) (st : PruneSt K) (c : Nat) : Prop :=
+  a.xlsub.getD c 0 ≤ st.xprune.getD c 0 ∧ st.xprune.getD c 0 ≤ a.xlsub.getD (c+1) 0 ∧
+  (∀ k, a.xlsub.getD c 0 ≤ k → k < st.xprune.getD c 0 → pivoted a.permR (st.lsub.getD k 0) = true) ∧
+  (∀ k, st.xprune.getD c 0 ≤ k → k < a.xlsub.getD (c+1) 0 → pivoted a.permR (st.lsub.getD k 0) = false)
+
+/-- a cut made earlier survives every later turn (the segments of different columns are disjoint) -/
+theorem cutAt_step {K : Type} (z : K) (a : PruneArgs) (st : PruneSt K) (i c : Nat)
+    (h : PruneWf a st.lsub.size st.lusup.size st.xprune.size (a.segrep.getD i 0))
+    (hmono : ∀ i j, i ≤ j → j < a.xlsub.size → a.xlsub.getD i 0 ≤ a.xlsub.getD j 0)
+    (hi : a.segrep.getD i 0 + 1 < a.xlsub.size) (hc : c + 1 < a.xlsub.size)
+    (hcut : CutAt a st c) : CutAt a (pruneStep z a st i) c := by
+  obtain ⟨n1, n2⟩ := pruneL_step_cut z a st i h
+  by_cases hp : prunes a st (a.segrep.getD i 0) = true
+  · obtain ⟨c1, c2, c3, c4, _, c6⟩ := n2 hp
+    by_cases hci : c = a.segrep.getD i 0
+    · subst hci; exact ⟨c1, c2, c3, c4⟩
+    · obtain ⟨_, _, _, σ, s1, _, s3, _⟩ := pruneL_step_perm z a st i h
+      obtain ⟨d1, d2, d3, d4⟩ := hcut
+      have hx := c6 c hci
+      have hfix : ∀ k, a.xlsub.getD c 0 ≤ k → k < a.xlsub.getD (c+1) 0 → (pruneStep z a st i).lsub.getD k 0 = st.lsub.getD k 0 := by
+        intro k k1 k2
+        rw [s3, s1 k]
+        rcases Nat.lt_or_gt_of_ne hci with hlt | hgt
+        · have := hmono (c+1) (a.segrep.getD i 0) (by omega) (by omega); left; omega
+        · have := hmono (a.segrep.getD i 0 + 1) c (by omega) (by omega); right; omega
+      refine ⟨by rw [hx]; exact d1, by rw [hx]; exact d2, ?_, ?_⟩
+      · intro k k1 k2; rw [hx] at k2; rw [hfix k k1 (by omega)]; exact d3 k k1 k2
+      · intro k k1 k2; rw [hx] at k1; rw [hfix k (by omega) k2]; exact d4 k k1 k2
+  · have hp' : prunes a st (a.segrep.getD i 0) = false := by simpa using hp
+    rw [n1 hp']; exact hcut
+
+theorem cutAt_fold {K : Type} (z : K) (a : PruneArgs) (c : Nat)
+    (hmono : ∀ i j, i ≤ j → j < a.xlsub.size → a.xlsub.getD i 0 ≤ a.xlsub.getD j 0) (hc : c + 1 < a.xlsub.size) :
+    ∀ (is : List Nat) (st : PruneSt K),
+      (∀ i ∈ is, PruneWf a st.lsub.size st.lusup.size st.xprune.size (a.segrep.getD i 0) ∧ a.segrep.getD i 0 + 1 < a.xlsub.size) →
+      CutAt a st c → CutAt a (is.foldl (pruneStep z a) st) c := by
+  intro is
+  induction is with
+  | nil => intro st _ h; exact h
+  | cons i is ih =>
+    intro st hwf hcut
+    rw [List.foldl_cons]
+    obtain ⟨z1, z2, z3, _⟩ := pruneL_step_perm z a st i (hwf i (List.mem_cons_self ..)).1
+    apply ih
+    · intro j hj; rw [z1, z2, z3]; exact hwf j (List.mem_cons_of_mem _ hj)
+    · exact cutAt_step z a st i c (hwf i (List.mem_cons_self ..)).1 hmono (hwf i (List.mem_cons_self ..)).2 hc hcut
+
+/-- **dpruneL.c, the whole call, the cut**: with `xlsub` monotone (so the lists of different columns are disjoint),
+(1) every cut that holds before the call holds after it, and (2) if turn `i` partitions its representative (the tests
+of dpruneL.c:82-105 pass in the state reached after turns `0..i-1`), then AFTER THE CALL the list of `segrep[i]` is cut
+at `xprune[segrep[i]]`: every entry before it is a pivoted row, every entry from it on is not. -/
+theorem pruneL_cut {K : Type} (z : K) (a : PruneArgs) (nseg : Nat) (st : PruneSt K)
+    (hwf : ∀ i < nseg, PruneWf a st.lsub.size st.lusup.size st.xprune.size (a.segrep.getD i 0) ∧ a.segrep.getD i 0 + 1 < a.xlsub.size)
+    (hmono : ∀ i j, i ≤ j → j < a.xlsub.size → a.xlsub.getD i 0 ≤ a.xlsub.getD j 0) :
+    (∀ c, c + 1 < a.xlsub.size → CutAt a st c → CutAt a (pruneL z a nseg st) c) ∧
+    (∀ i, i < nseg → prunes a ((List.range i).foldl (pruneStep z a) st) (a.segrep.getD i 0) = true →
+      CutAt a (pruneL z a nseg st) (a.segrep.getD i 0)) := by
+  constructor
+  · intro c hc hcut
+    exact cutAt_fold z a c hmono hc (List.range nseg) st (fun i hi => hwf i (List.mem_range.1 hi)) hcut
+  · intro i hi hp
+    have hsplit : List.range nseg = List.range i ++ (i :: List.range' (i+1) (nseg - (i+1))) := by
+      rw [List.range_eq_range', List.range_eq_range', ← List.range'_succ]
+      have := @List.range'_append_1 0 i (nseg - (i+1) + 1)
+      rw [Nat.zero_add] at this
+      rw [this]; congr 1; omega
+    unfold pruneL
+    rw [hsplit, List.foldl_append, List.foldl_cons]
+    obtain ⟨y1, y2, y3, _⟩ := pruneL_fold_perm z a (List.range i) st (fun j hj => (hwf j (by have := List.mem_range.1 hj; omega)).1)
+    have hwfi : PruneWf a ((List.range i).foldl (pruneStep z a) st).lsub.size ((List.range i).foldl (pruneStep z a) st).lusup.size
+        ((List.range i).foldl (pruneStep z a) st).xprune.size (a.segrep.getD i 0) := by rw [y1, y2, y3]; exact (hwf i hi).1
+    obtain ⟨_, n2⟩ := pruneL_step_cut z a _ i hwfi
+    obtain ⟨c1, c2, c3, c4, _, _⟩ := n2 hp
+    obtain ⟨w1, w2, w3, _⟩ := pruneL_step_perm z a _ i hwfi
+    apply cutAt_fold z a _ hmono (hwf i hi).2
+    · intro j hj
+      rw [w1, w2, w3, y1, y2, y3]
+      exact hwf j (by have := (List.mem_range'_1.1 hj).2; omega)
+    · exact ⟨c1, c2, c3, c4⟩
+
+/-- the hypotheses of `pruneL_cut` on the example state: monotone `xlsub`, turn 0 partitions column 0 -/
+example : (∀ i < 1, PruneWf exPruneArgs exPruneSt.lsub.size exPruneSt.lusup.size exPruneSt.xprune.size (exPruneArgs.segrep.getD i 0) ∧
+    exPruneArgs.segrep.getD i 0 + 1 < exPruneArgs.xlsub.size) ∧
+    (∀ i < 5, ∀ j < 5, i ≤ j → exPruneArgs.xlsub.getD i 0 ≤ exPruneArgs.xlsub.getD j 0) := by decide
 end Slu.SymbArr
